@@ -507,6 +507,13 @@ func cmdCheck(args []string) {
 		}
 		params["seed"] = int(seed)
 		cfg := baseConfig(*tier, seed, opts, params)
+		cfg.StopAfterViolations = 48
+		cfg.IgnoreForStop = map[string]bool{}
+		for _, k := range known.Known {
+			if k.Property == *prop && k.Harness == fn.Name() && k.Assert != "" {
+				cfg.IgnoreForStop[k.Assert] = true
+			}
+		}
 		if hs.Solver != "" && os.Getenv("GOSYM_SOLVER") == "" {
 			cfg.SolverKind = hs.Solver
 		}
@@ -516,6 +523,9 @@ func cmdCheck(args []string) {
 			fatal(2, "explorer: %v", err)
 		}
 		name := fn.Name()
+		if ex.StoppedOnViolations {
+			fmt.Printf("  %s: exploration stopped after %d violating paths (the verdict of this harness is settled)\n", name, cfg.StopAfterViolations)
+		}
 		rep := &harnessReport{
 			Fn: hs.Fn, Bounds: hs.Bounds, Params: params,
 			Paths: ex.Stats.Paths, PathsDone: ex.Stats.PathsOK, Infeasible: ex.Stats.Infeasible,
@@ -682,6 +692,33 @@ func cmdCheck(args []string) {
 					path := writeReplay(*prop, name, *tier, seed, params, v, o, shape, input)
 					violLines = append(violLines, fmt.Sprintf("VIOLATION property=%s replay=%s", *prop, path))
 					fmt.Printf("  violated budget-exceeded in %s: shape=%s input=%q engine=%s native=%s/%s %s\n", name, shape, input, v.Detail, o.Result, o.Assert, o.Detail)
+				}
+			}
+		}
+		// --- paths the engine could not carry on with (an operation it does not
+		// encode): they stay inconclusive, but the model reached so far is run
+		// natively, and a native failure is a violation in its own right
+		if len(ex.UnencPaths) > 0 {
+			var uvecs [][][2]interface{}
+			for _, up := range ex.UnencPaths {
+				uvecs = append(uvecs, up.Vector)
+			}
+			urp := rp
+			if strings.HasPrefix(name, "C14_") {
+				urp = rp.withRace()
+				rp.raceBin = urp.raceBin
+			}
+			outs := urp.run(name, params, uvecs, 60*time.Second)
+			for i, o := range outs {
+				if o.Result == "violation" || o.Result == "panic" || o.Result == "crash" {
+					v := interp.Violation{AssertID: "unencodable-path-fails-natively", Detail: ex.UnencPaths[i].Msg, Vector: uvecs[i], Notes: ex.UnencPaths[i].Notes}
+					shape := shapeString(v.Vector)
+					input := inputString(v.Vector)
+					rep.Violations++
+					totalViol++
+					path := writeReplay(*prop, name, *tier, seed, params, v, o, shape, input)
+					violLines = append(violLines, fmt.Sprintf("VIOLATION property=%s replay=%s", *prop, path))
+					fmt.Printf("  violated (natively, on a path the engine could not finish) in %s: shape=%s input=%q engine=%s native=%s/%s %s\n", name, shape, input, firstLines(v.Detail, 1), o.Result, o.Assert, o.Detail)
 				}
 			}
 		}
